@@ -307,6 +307,40 @@ namespace
     };
 
 
+    // delay that THROWS instead of emitting a negative value; the input part (state, next wake-up) is done first, so the
+    // node's own timer state is complete whatever happens to the emission
+    struct VTDelay
+    {
+        static constexpr auto name = "v_tdelay";
+        static void           start(State<Int> st) { st.set(Int{0}); }
+        static void           eval(Scalar<"id", Int> id, Scalar<"d", Int> d, In<"x", TS<Int>> x, NodeScheduler sched, State<Int> st,
+                                    NodeView self, DateTime now, Out<TS<Int>> out)
+        {
+            FnLog log(id.value(), self, now);
+            log.ins({in_rec(x)});
+            const bool due = sched.tag_is_scheduled_now("e");
+            const Int  old = st.get();
+            log.i("due", due ? 1 : 0);
+            if (x.modified())
+            {
+                st.set(x.value());
+                sched.schedule(now + MIN_TD * d.value(), "e");
+                log_req(id.value(), self, now, now + MIN_TD * d.value(), "e");
+            }
+            if (due)
+            {
+                if (old < 0)
+                {
+                    log.i("throw", 1).emit();
+                    throw std::runtime_error("neg " + std::to_string(static_cast<long>(old)));
+                }
+                out.set(old);
+                log.out(old);
+            }
+            log.emit();
+        }
+    };
+
     // echo every input d steps later (untagged schedules accumulate: several echoes may be pending at once, so the node
     // relies on the engine re-arming its earliest pending time after an input-driven evaluation)
     thread_local std::map<std::pair<const void *, std::size_t>, std::deque<std::pair<long, long>>> g_echo_queues;
@@ -1195,6 +1229,7 @@ namespace
             else if (kind == "count") { env.ports.emplace(id, wire<VCount>(w, sid, in.at(0))); }
             else if (kind == "echo") { env.ports.emplace(id, wire<VEcho>(w, sid, Int{l.geti("d", 1)}, in.at(0))); }
             else if (kind == "delay") { env.ports.emplace(id, wire<VDelay>(w, sid, Int{l.geti("d", 1)}, in.at(0))); }
+            else if (kind == "tdelay") { env.ports.emplace(id, wire<VTDelay>(w, sid, Int{l.geti("d", 1)}, in.at(0))); }
             else if (kind == "timer") { env.ports.emplace(id, wire<VTimer>(w, sid, Int{l.geti("p", 1)}, Int{l.geti("cnt", 1)})); }
             else if (kind == "throwneg") { env.ports.emplace(id, wire<VThrowNeg>(w, sid, in.at(0))); }
             else if (kind == "rec") { wire<VRec>(w, sid, in.at(0)); }
